@@ -138,6 +138,38 @@ def snap_any(obj):
     return S.snap(obj)
 
 
+MEMO_FUNCTIONS = ("Math.bezier_caract_matrix", "Math.comb", "Operations.degree_decrease", "Derivate.non_rational_bezier_once",
+                  "Derivate.non_rational_bezier")
+
+
+def clear_memo_tables():
+    """cold module-level memo tables (if they exist under their current names)"""
+    from shapepy import curve as crv
+
+    for owner, attr in (("Math", "_Math__caract_matrix"), ("Operations", "_Operations__degree_decre"),
+                        ("Derivate", "_Derivate__non_rat_bezier_once")):
+        tab = getattr(getattr(crv, owner, None), attr, None)
+        if isinstance(tab, dict):
+            tab.clear()
+
+
+def history_probe(obj):
+    """answers after a further in-place move of the object (compared with a twin treated alike):
+    state left behind by an interrupted call may only show after the geometry changes"""
+    import shapepy
+
+    if isinstance(obj, shapepy.JordanCurve) or not hasattr(obj, "jordans"):
+        return []
+    obj.move(100, 7)
+    P = shapepy.Primitive
+    ring = P.square(3, (100, 7)) - P.square(1, (100, 7))
+    out = [("float", round(float(obj), 9)), ("ring in obj", bool(ring in obj)), ("obj in big", bool(obj in P.square(4000, (100, 7))))]
+    for p in ((100.1, 7.2), (101.5, 7.3), (0.1, 0.2), (140.0, 47.0)):
+        out.append((p, bool(p in obj)))
+    obj.move(-100, -7)
+    return out
+
+
 def battery(obj):
     """answers of a few cheap queries (compared between the live object and a fresh twin)"""
     import shapepy
@@ -154,7 +186,7 @@ def battery(obj):
     return out
 
 
-def compare_operands(case, opname, site, operands, before, twins_battery):
+def compare_operands(case, opname, site, operands, before, twins_battery, probes=None):
     case.count("inject:operands-compared", len(operands))
     for k, (obj, snap0) in enumerate(zip(operands, before)):
         snap1 = snap_any(obj)
@@ -178,10 +210,18 @@ def compare_operands(case, opname, site, operands, before, twins_battery):
             case.violate("operand %d of '%s' answers differently after an exception injected at %s: %s" % (
                 k, opname, site, diff[:3]), operation=opname, site=str(site))
             return False
+        if probes is not None and probes[k] is not None:
+            got, exc = call(history_probe, obj)
+            case.count("inject:history-probes")
+            if exc is not None or got != probes[k]:
+                diff = [(a, b) for a, b in zip(got or [], probes[k]) if a != b]
+                case.violate("operand %d of '%s', moved in place after an exception injected at %s, answers %s (a twin treated alike: second of each pair)" % (
+                    k, opname, site, exc_text(exc) if exc else diff[:3]), operation=opname, site=str(site))
+                return False
     return True
 
 
-def enumerate_op(case, ctx, opname, build, run, mode, stride, offset, sample=None):
+def enumerate_op(case, ctx, opname, build, run, mode, stride, offset, sample=None, cold=False):
     inj = faults.Injector(mode=mode, line_functions=LINE_FUNCTIONS if mode == "line" else None)
     inj.install()
     sites_seen = set()
@@ -190,6 +230,8 @@ def enumerate_op(case, ctx, opname, build, run, mode, stride, offset, sample=Non
             run(build())   # warm-up: fills the memo tables, so that the surveyed run is typical
         except Exception:
             pass
+        if cold:
+            clear_memo_tables()   # cold mode: the surveyed and the injected runs fill the tables themselves
         operands = build()
         inj.survey_start()
         try:
@@ -206,7 +248,15 @@ def enumerate_op(case, ctx, opname, build, run, mode, stride, offset, sample=Non
             case.unsure("operation '%s' has no %s boundary" % (opname, mode))
             return 0, 0
         twins = [battery(o) for o in build()]
+        probes = []
+        for o in build():
+            pr, exc = call(history_probe, o)
+            probes.append(pr if exc is None else None)
         ks = list(range(1 + offset, total + 1, stride))
+        if cold:
+            # only the boundaries inside the functions that fill the module-level memo tables
+            ks = [k for k in range(1, total + 1) if sites[k - 1][0] in MEMO_FUNCTIONS]
+            sample = None
         if sample == "auto":
             # thorough: every boundary of operations with up to ~8000 boundaries; beyond that, per
             # stride, the first occurrence of every site plus 400 sampled boundaries
@@ -226,6 +276,8 @@ def enumerate_op(case, ctx, opname, build, run, mode, stride, offset, sample=Non
         for k in ks:
             operands = build()
             before = [snap_any(o) for o in operands]
+            if cold:
+                clear_memo_tables()
             inj.arm(k)
             surfaced = None
             try:
@@ -249,8 +301,8 @@ def enumerate_op(case, ctx, opname, build, run, mode, stride, offset, sample=Non
             if surfaced is None:
                 case.count("inject:swallowed")
             case.judged()
-            if not compare_operands(case, opname, "%s+%s (boundary %d/%d, %s)" % (site[0], site[1], k, total, mode),
-                                    operands, before, twins):
+            if not compare_operands(case, opname, "%s+%s (boundary %d/%d, %s%s)" % (site[0], site[1], k, total, mode, ", cold memo tables" if cold else ""),
+                                    operands, before, twins, probes if (fired % 5 == 0 or cold) else None):
                 if len(case.violations) >= 3:
                     break
         case.spec.setdefault("sites", 0)
@@ -359,6 +411,8 @@ def plan(tier):
                 out.append(("line", name, off))
         for i in range(48):
             out.append(("random", i, 0))
+    for name in ("moment of connected", "polygon & polygon (crossing)") + (("circle & square (crossing, curved)", "copy of disjoint") if tier != "quick" else ()):
+        out.append(("cold", name, 0))
     for i in range(4 if tier == "quick" else 24):
         out.append(("hostile", i, 0))
     return out
@@ -411,7 +465,14 @@ def case(ctx):
     else:
         ops = ops_fixed() if tier == "quick" else ops_thorough()
         build, run = ops[name]
-        if what == "line":
+        if what == "cold":
+            total, fired = enumerate_op(case, ctx, name, build, run, "call", 1, 0, sample=None, cold=True)
+            # leave warm tables behind for the cases that follow in this process
+            try:
+                run(build())
+            except Exception:
+                pass
+        elif what == "line":
             total, fired = enumerate_op(case, ctx, name, build, run, "line", 4, off, sample=400)
         else:
             sample = QUICK_SAMPLE if tier == "quick" else (250 if name.startswith("circle") else "auto")
